@@ -29,8 +29,10 @@ ASSUMPTIONS = [
 MANIFEST_ENTRY = {
     'technique': 'exhaustive meet-in-the-middle enumeration of all operators '
                  'of weight < d (own GF(2) syndrome / row-space oracle) on '
-                 'every small family member; randomised information-set '
-                 'search on larger ones',
+                 'every small family member and on an elongated family (one '
+                 'side up to 10 / 14, the others 2-4) of every class; '
+                 'randomised information-set search where the enumeration '
+                 'budget ends',
     'level_text': 'For each enumerated instance the claim "no non-trivial '
                   'logical lighter than d exists" is decided by complete '
                   'enumeration below d, and "a logical of weight d exists" by '
